@@ -8,6 +8,7 @@ from types import SimpleNamespace as NS
 import core
 import fracexec
 import u4_util as U4
+import v4_util as V4
 from fracexec import frac_str, frac_list
 
 MODULE = 'UwgVerif.Props.C20'
@@ -154,7 +155,7 @@ def float_columns_msgs(m, depths, temps=None):
     out = []
     droad = m.droad
     nlay = max(int(math.ceil(droad / 0.05)), 1)
-    pavement = 0.05 * nlay if droad > 0.05 else droad
+    pavement = 0.05 * nlay            # the pavement that is built: droad rounded up to whole 5 cm slices
     want_idx = next((i for i, d in enumerate(depths) if d > pavement - 1e-9), None)
     for el, idxname in ((m.road, '_soilindex1'), (m.rural, '_soilindex2')):
         idx = getattr(m, idxname, None)
@@ -205,7 +206,7 @@ def u4_after_generate(m, spec, sink, ctx):
         ctx['depths'], ctx['temps'], _ = S.ground_of(S.load_epw(spec['epw']))
     ctx['model'] = m
     nlay = max(int(math.ceil(m.droad / 0.05)), 1)
-    pavement = 0.05 * nlay if m.droad > 0.05 else m.droad
+    pavement = 0.05 * nlay
     ctx['want_idx'] = next((i for i, d in enumerate(ctx['depths']) if d > pavement - 1e-9), None)
     for kind, msg in float_columns_msgs(m, ctx['depths']):
         sink(kind, msg)
@@ -236,7 +237,18 @@ def circumstance_ties(chk, quick):
                               about={'GROUND TEMPERATURES depths': [0.5, 2.0, 40.0]}, month=3, day=1, nday=1, dtsim=300,
                               droad=2.2, kroad=1.2, croad=1.9e6),
                  U4.make_spec('pavement 1.5 m', month=8, day=31, nday=2, dtsim=300, droad=1.5, kroad=0.6, croad=2.4e6),
-                 U4.make_spec('pavement 2.3 m (pads to 4 m)', month=2, day=28, nday=2, dtsim=300, droad=2.3)]
+                 U4.make_spec('pavement 2.3 m (pads to 4 m)', month=2, day=28, nday=2, dtsim=300, droad=2.3),
+                 U4.make_spec('ground records 0.52 / 2 / 4 m, pavement 0.51 m (0.55 m of asphalt are built: the 0.52 m record '
+                              'lies inside it)', epw=U4.ground_file(src, os.path.join(work, 'in_slice.epw'), [0.52, 2.0, 4.0]),
+                              about={'GROUND TEMPERATURES depths': [0.52, 2.0, 4.0]}, month=3, day=31, nday=2, dtsim=300,
+                              droad=0.51, kroad=1.4, croad=1.8e6),
+                 U4.make_spec('ground records in feet (0.3048 / 0.9144 / 3.048 m), pavement 0.3 m (4.8 mm short of the record)',
+                              epw=U4.ground_file(src, os.path.join(work, 'feet.epw'), [0.3048, 0.9144, 3.048], PROPS['partly']),
+                              about={'GROUND TEMPERATURES depths': [0.3048, 0.9144, 3.048]}, month=9, day=30, nday=2,
+                              dtsim=300, droad=0.3),
+                 U4.make_spec('ground records 0.503 / 2.004 / 4 m, pavement 2.0 m', month=5, day=1, nday=1, dtsim=300, droad=2.0,
+                              epw=U4.ground_file(src, os.path.join(work, 'mm.epw'), [0.503, 2.004, 4.0]),
+                              about={'GROUND TEMPERATURES depths': [0.503, 2.004, 4.0]})]
     counts, nbad, _ = U4.live_battery(
         chk, 'C20', U4_HOOKS, scen, U4.others_default(work), 'ground-column oracle on live runs',
         full=2 if quick else len(scen), required=('column-depth', 'column-composition', 'deepTemp'))
@@ -251,6 +263,95 @@ def circumstance_ties(chk, quick):
                'whose relevant ground record is 30 / 40 m deep: %s. %s' % ('; '.join(s_['label'] for s_ in scen),
                                                                             U4.BATTERY_RULE),
                mismatches=nbad, branches=counts)
+
+
+def offgrid_float_tie(chk, realuwg, sgp_rows, work):
+    """The C20 statement on the columns of the real (double precision) generate() for geometry OFF the grids of the
+    model (harness/v4_util.offgrid_family): rural files whose ground depths carry millimetres / feet, pavements in
+    millimetres / inches."""
+    import s1_util as S
+    rng = chk.rng
+    quick = chk.tier == 'quick'
+    fam = V4.offgrid_family(rng, list(V4.OFFGRID_KINDS) * (2 if quick else 12), n_random=0 if quick else 60)
+    bad, br, n = 0, {}, 0
+    for ci, oc in enumerate(fam):
+        depths = [float(V4.dec(x)) for x in oc['depths']]
+        droad = float(V4.dec(oc['droad']))
+        pav = 0.05 * max(int(math.ceil(droad / 0.05)), 1)
+        gaps = [(d - pav) / 0.05 for d in depths]
+        if any(abs(d - pav) < 1e-6 and abs(d - pav) > 0 for d in depths):
+            continue                       # (a record within a micrometre of the pavement: rounding decides, not the property)
+        epw = os.path.join(work, 'offgrid.epw')
+        write_epw(os.path.join(core.REPO, EPW), epw, [V4.dec(x) for x in oc['depths']], ['blank', 'filled', 'partly'][ci % 3])
+        with open(epw, errors='ignore') as f_:
+            ground_text = f_.read().split('\n')[3]
+        m = realuwg.UWG.from_param_file(os.path.join(core.REPO, PARAM), epw_path=epw)
+        m.nday, m.droad = 1, droad
+        m.kroad, m.croad = [1.8, 1.0, 0.6][ci % 3], [1.6e6, 2.4e6, 2e6][ci % 3]
+        want_idx = next((i for i, d in enumerate(depths) if d > pav - 1e-9), None)
+        verdict, msgs = 'ok', []
+        interrupted = None
+        if ci % 4 == 1:
+            # an interrupted call first: KeyboardInterrupt / SystemExit / GeneratorExit (BaseException) raised inside
+            # generate() - at the first or the second refinement of a column -, caught by the caller; then the normal call
+            exc, at = [(KeyboardInterrupt, 1), (SystemExit, 2), (GeneratorExit, 2)][(ci // 4) % 3]
+            interrupted = '%s at call %d of _procmat' % (exc.__name__, at)
+            raw = realuwg.UWG.__dict__['_procmat']
+            calls = [0]
+
+            def procmat(*a, **k):
+                calls[0] += 1
+                if calls[0] == at:
+                    raise exc('interrupted by the harness')
+                return raw.__func__(*a, **k)
+            realuwg.UWG._procmat = staticmethod(procmat)
+            try:
+                with core.quiet():
+                    m.generate()
+            except BaseException:  # noqa: BLE001 - the interruption (or a refusal that comes first); the normal call below is judged
+                pass
+            finally:
+                realuwg.UWG._procmat = raw
+            br['interrupted first:' + interrupted] = br.get('interrupted first:' + interrupted, 0) + 1
+        try:
+            with core.quiet():
+                m.generate()
+        except Exception as e:  # noqa: BLE001
+            verdict = 'raises %s: %s' % (type(e).__name__, str(e)[:120])
+        tag = oc['kind'] + ('/refused' if verdict != 'ok' else '/unset' if want_idx is None else '/padded')
+        br[tag] = br.get(tag, 0) + 1
+        n += 1
+        if verdict != 'ok':
+            # outside the domain only if really no record lies at or below the pavement (three or more records)
+            if not ('deeper than the deepest ground temperature depth' in verdict and want_idx is None and len(depths) >= 3):
+                msgs.append(('generate', 'generate() %s although record %r (%s m) lies at or below the %.2f m pavement' % (
+                    verdict, want_idx, depths[want_idx] if want_idx is not None else None, pav)))
+        else:
+            msgs = [(k, mm) for k, mm in float_columns_msgs(m, depths) if mm]
+        for kind, msg in msgs[:1]:
+            bad += 1
+            if bad <= 3:
+                chk.violation('impl-violation', 'ground columns for off-grid geometry (real float generate): %s' % kind,
+                              case={'family member': oc['kind'], 'droad': droad, 'GROUND TEMPERATURES depths': depths,
+                                    'an earlier generate() of the same object was interrupted': interrupted,
+                                    'pavement built (droad rounded up to whole 5 cm slices)': pav,
+                                    'GROUND TEMPERATURES line': ground_text[:200]},
+                              observed=msg,
+                              expected='road and rural column end at record %r (%s m), the first ground-temperature depth at or '
+                                       'below the %.2f m pavement: depth <= column < depth + 0.05; soil index = that record; '
+                                       'pavement (kroad, croad), then 5 cm slices of soil' % (
+                                           want_idx, depths[want_idx] if want_idx is not None else None, pav))
+    chk.direct('padding-oracle(real float generate, off-grid depths and pavements)', n, n,
+               'real (double precision) generate() on copies of the Singapore file whose GROUND TEMPERATURES line carries '
+               'depths written to the millimetre / in feet, with pavements in millimetres / inches (soil-property cells blank / '
+               'filled / partly filled in rotation; kroad, croad cycling): family of harness/v4_util.py - a record 1 .. 4.9 mm '
+               'below / above a point of the 5 cm slice grid, a record inside the last pavement slice (between the raw droad '
+               'and droad rounded up to whole slices; also as the only / the last record), feet x inches, droad a few mm beyond '
+               'a slice boundary, record = off-grid droad, all-random millimetres. Demanded: both soil indices = the first '
+               'record at or below the pavement BUILT, depth <= column depth < depth + 0.05, slice by slice pavement then soil; '
+               'every fourth member after an INTERRUPTED generate() of the same object (KeyboardInterrupt / SystemExit / '
+               'GeneratorExit raised at the first / second column refinement, caught by the caller); '
+               'a refusal only when three or more records all lie above the pavement', mismatches=bad, branches=br)
 
 
 def run(chk):
@@ -319,14 +420,27 @@ def run(chk):
     ndeep = 2 if chk.tier == 'quick' else len(deep_sets)
     deep_pick = rng.sample(deep_sets, ndeep)
     deep_done = [0]
-    for i in range(ncol + ndeep):
+    # geometry OFF the grids of the model: depths / pavements written to the millimetre, in feet and inches, a few
+    # millimetres above or below a point of the 5 cm slice grid, inside the last pavement slice, equal to droad off the grid
+    if chk.tier == 'quick':
+        off = V4.offgrid_family(rng, ['mm-above-grid', 'inside-last-slice', rng.choice(['feet-inches', 'droad-mm']),
+                                      rng.choice(['mm-below-grid', 'equals-droad', 'inside-last-slice/few-records']),
+                                      'mm-above-grid', 'inside-last-slice'], n_random=1)
+    else:
+        off = V4.offgrid_family(rng, list(V4.OFFGRID_KINDS) * 4, n_random=12)
+    off_kinds = {}
+    for i in range(ncol + ndeep + len(off)):
         depths = depth_sets[i % len(depth_sets)] if i < 2 * len(depth_sets) else \
             sorted(rq(rng, 0.05, 3, 100) for _ in range(rng.choice([1, 2, 3, 4])))
         droad = rng.choice([F('0.5'), F('0.35'), F('0.05'), F('0.04'), F('0.12'), F('1.0'), F('0.2'),
                             rq(rng, 0.02, 2.5, 100)])
-        if i >= ncol:
+        if ncol <= i < ncol + ndeep:
             depths, droad = deep_pick[i - ncol]
             deep_done[0] += 1
+        elif i >= ncol + ndeep:
+            oc = off[i - ncol - ndeep]
+            depths, droad = oc['depths'], oc['droad']
+            off_kinds[oc['kind']] = off_kinds.get(oc['kind'], 0) + 1
         # pavement material: anything legal, on both sides of the soil values (1 W/m-K, 2e6 J/m3-K), and - as in
         # every shipped file - coinciding with one or both of them
         kroad = [rq(rng, 0.5, 0.9, 10), rq(rng, 1.1, 3, 10), F(1), rq(rng, 0.05, 5, 100)][i % 4]
@@ -442,7 +556,14 @@ def run(chk):
                         'other header cells varied as well) x pavement thickness (incl. deeper than the deepest '
                         'depth: index unset with one or two ground records, refused - `err refused` on both sides - with '
                         'three or more); plus files whose first ground record at or below the pavement is DEEP '
-                        '(12.5 / 20 / 25.05 / 26 / 30 / 40 m: columns of 250 .. 800 slices): road and rural layer lists and '
+                        '(12.5 / 20 / 25.05 / 26 / 30 / 40 m: columns of 250 .. 800 slices); plus geometry OFF the grids of '
+                        'the model - ground depths and pavement thicknesses written to the millimetre: a record 1 .. 4.9 mm '
+                        'below a point of the 5 cm slice grid that the column reaches anyway (0.503 under a 0.50 m road), '
+                        '1 .. 4.9 mm above one, a record between the raw droad and droad rounded up to whole slices '
+                        '(0.52 under a 0.51 m road: inside the asphalt; also as the only / last of one, two, three records), '
+                        'depths in feet x pavements in inches (0.3048, 0.9144, 3.048), droad a few mm beyond a slice '
+                        'boundary, a record equal to an off-grid droad, everything random to the mm (kinds: %s): road and rural layer lists and '
+                        % ', '.join(V4.OFFGRID_KINDS) +
                         'soil index vs Lean columnOutcome, exact '
                         '(the model takes the depths only: the optional cells are no input)',
                    classify=lambda l, a: 'unset' if 'idx=unset' in a else 'err' if a.startswith('err') else 'padded')
@@ -459,6 +580,7 @@ def run(chk):
     chk.measurements['column_simulated_by_canyon_model'] = ucm_state
     chk.measurements['pavements_refused_as_deeper_than_the_deepest_of_3+_ground_records'] = refused_deep[0]
     chk.extra_cov['ground_header_modes'] = hdr_modes
+    chk.extra_cov['off_grid_geometry(exact tie)'] = off_kinds
     if ucm_state['unpadded'] and not ucm_state['other'] and not chk.broken() and not chk.violations:
         for kf in chk.known_findings():
             if kf['id'] == 'C20-urban-road-not-padded':
@@ -478,6 +600,17 @@ def run(chk):
     t5 += [(starts[0], 'ground-props-filled', None, None), (starts[-1], 'actual-year-header', None, None),
            ((rng.randint(1, 11), 28, 2), 'ground-props-partly', None, None),
            ((rng.randint(1, 11), 27, 2), 'filled', [0.3, 0.8, 1.5, 3.0], rng.choice([0.5, 1.0, 1.2]))]
+    # off the grid: the record that closes the columns decides WHICH monthly values are imposed (a record inside the last
+    # pavement slice must be passed over; a record a few mm below a slice boundary must be reached)
+    oc_in = V4.offgrid_case(rng, 'inside-last-slice')
+    oc_mm = V4.offgrid_case(rng, rng.choice(['mm-above-grid', 'feet-inches', 'droad-mm', 'equals-droad']))
+    for oc in (oc_in, oc_mm):
+        while len(oc['depths']) < 3:
+            oc['depths'].append(oc['depths'][-1] + 2)
+    t5 += [((rng.randint(1, 12), rng.randint(1, 28), 1), 'filled' if n else 'blank', [float(x) for x in oc['depths']],
+            float(oc['droad'])) for n, oc in enumerate((oc_in, oc_mm))]
+    chk.extra_cov['off_grid_geometry(deepTemp runs)'] = [
+        {'kind': oc['kind'], 'depths': [float(x) for x in oc['depths']], 'droad': float(oc['droad'])} for oc in (oc_in, oc_mm)]
     hdr_file = None
     for ((mo, dy, nd), variant, own_depths, droad) in t5:
         if own_depths:
@@ -506,7 +639,7 @@ def run(chk):
             m.simulate()
         del m.simTime.update_date
         nsteps += len(seen)
-        pav = m.droad if m.droad <= 0.05 else 0.05 * int(math.ceil(m.droad / 0.05))
+        pav = 0.05 * max(int(math.ceil(m.droad / 0.05)), 1)
         want_idx = next((i for i, d in enumerate(depths_v) if d > pav - 1e-9), None)
         if m._soilindex1 != want_idx or m._soilindex2 != want_idx or \
                 [r[0] for r in m.depth_soil] != depths_v:
@@ -531,7 +664,10 @@ def run(chk):
                'the chosen depth for the calendar month in which the step starts; the chosen depth is the first one '
                'at or below the pavement. Files: the shipped one; its ground line with the optional soil-property '
                'cells filled / partly filled; an actual-year header (leap flag, DST period, holidays, Friday, '
-               'properties); a four-depth line with properties filled and the pavement below the second depth. '
+               'properties); a four-depth line with properties filled and the pavement below the second depth; two '
+               'one-day runs with OFF-GRID geometry (a ground record between the raw droad and droad rounded up to whole '
+               '5 cm slices - it lies inside the asphalt and must be passed over; depths / droad to the millimetre or '
+               'in feet and inches). '
                'Expected values are parsed by the EPW layout (16 cells per depth)', mismatches=bad3)
 
     # --- float-level padding oracle on the real generate(): pavement thickness grid
@@ -592,6 +728,7 @@ def run(chk):
                'the same grid with kroad cycling through 1.8 / 1.0 / 0.6 / 2.5 / 0.25 W/m-K and croad through 1.6e6 / '
                '2.4e6 / 2e6 J/m3-K: slice by slice the pavement carries (kroad, croad) and everything below it is soil '
                'in every property (k = 1, c = 2e6, 0.05 m, Material "soil")', mismatches=bad5, branches=compf)
+    offgrid_float_tie(chk, realuwg, sgp_rows, work)
     chk.assumptions.append('float effects in ceil(droad/0.05) and depth > sum(thickness) are outside the exact '
                            'model (e.g. droad=0.35 gives 8 pavement layers in doubles, 7 exactly)')
     circumstance_ties(chk, chk.tier == 'quick')
